@@ -399,6 +399,11 @@ def standin_roundtrip(tier, seed):
         fails.append(dict(args=dict(a=repr(ta)[:300], b=repr(tb)[:300]), failed="different-values-compare-equal", clause="two TensoredConfusionMatrices with different confusion_matrix([q0, q1]) compare equal"))
     cases += 1
     _laws(ta, "TensoredConfusionMatrices", fails, dict(family="values filled by use / long integers / vendor metadata", value=repr(ta)[:300]), imp)
+    try:
+        import cirq_google as _cg
+        pairs.append((_cg.KeyValueExecutableSpec("f", (("a", 1), ("b", 2))), _cg.KeyValueExecutableSpec("f", (("b", 2), ("a", 1)))))
+    except (ImportError, AttributeError):
+        pass
     for x, y in pairs:
         cases += 1
         if x == y:
